@@ -662,7 +662,7 @@ namespace sim
       base = cat[ok[rng.below(ok.size())]];
     else
       {
-        GenWorld g = bsel < 0.75 ? gen_rich_world(rng, false) : (bsel < 0.85 ? gen_random_world(rng) : (bsel < 0.93 ? gen_slab_world(rng) : gen_surface_world(rng)));
+        GenWorld g = bsel < 0.66 ? gen_rich_world(rng, false) : bsel < 0.75 ? gen_rich_world(rng, true) : (bsel < 0.85 ? gen_random_world(rng) : (bsel < 0.93 ? gen_slab_world(rng) : gen_surface_world(rng)));
         base = analyse_world("gen.wb", g.json);
       }
     const std::string intact = "/simfs/intact.wb", doc = "/simfs/doc.wb", variant = "/simfs/variant.wb";
